@@ -1,0 +1,15 @@
+//go:build verif
+
+package batchrelease
+
+import (
+	"sigs.k8s.io/controller-runtime/pkg/controller"
+	"sigs.k8s.io/controller-runtime/pkg/handler"
+)
+
+// VerifSetRuntimeController installs the controller the BatchRelease reconciler registers dynamic workload watches on
+// (verification harness only; compiled with -tags verif).
+func VerifSetRuntimeController(c controller.Controller, h handler.EventHandler) {
+	runtimeController = c
+	workloadHandler = h
+}
